@@ -29,6 +29,7 @@ type Case = copysc.Case
 func gen(t *rapid.T) Case {
 	o := copysc.DefaultGen()
 	o.NoOptions = true // the statement is about default options
+	o.Align = true     // "each distinct blob at most once however many parts share it" is a statement about concurrent parts
 	// layout<->layout traffic is not observable
 	o.Pairings = []string{"same-repo", "same-repo", "same-reg", "same-reg", "same-reg", "two-reg", "two-reg", "reg-layout", "layout-reg"}
 	return copysc.Gen(t, o)
